@@ -51,4 +51,28 @@ PROPS = {
                     "real descriptor back with a bracket reader and compares with the tree"],
         "assumptions": ["rendering is modelled for patterns whose fields carry no conversion or format spec"],
     },
+    "C14": {
+        "harness": "c14",
+        "theorems": ["DL.C14_refine_step", "DL.C14_refine", "DL.C14_from_init", "DL.C14_stack_restores", "DL.C14_set_invalid",
+                     "DL.C14_enter_invalid", "DL.C14_valid_iff"],
+        "partial": [],
+        "assumptions": ["leaving normally and leaving by an exception are the same operation (the code's __exit__ ignores its arguments); "
+                        "the harness passes real exception triples", "string.Formatter().parse is modelled (parsePat) and tied by a table of tricky patterns"],
+    },
+    "C15": {
+        "harness": "c15",
+        "theorems": ["DL.C15_bijection", "DL.C15_ids", "DL.C15_ids_across", "DL.C15_empty", "DL.C15_sources", "DL.iterChain_ok"],
+        "partial": ["acceptance of the DOT text by Graphviz is runtime behaviour: the harness pipes graphs through `dot -Tsvg`",
+                    "HTML naming of the cells and graphviz text emission are outside the model (parsed back by the harness)"],
+        "assumptions": ["the process-wide counter is the only source of node numbers (the harness runs sessions with varied graph attributes)"],
+    },
+    "C16": {
+        "harness": "c16",
+        "theorems": ["DL.C16_rows", "DL.C16_order", "DL.C16_stable", "DL.C16_shape", "DL.C16_default", "DL.C16_normalize",
+                     "DL.C16_largest", "DL.C16_scale", "DL.C16_refuse", "DL.C16_columns"],
+        "partial": ["float rounding of bf/norm and the '%.7g' rendering are outside the theorems: the model formats the exact "
+                    "quotient (fmtG7) and the harness compares the printed strings, skipping values within 1e-3 of a rounding tie",
+                    "'printing never alters the stored values' is a runtime clause: checked by the harness snapshot"],
+        "assumptions": ["exact rational arithmetic in the model"],
+    },
 }
